@@ -879,6 +879,13 @@ def rule_context_chain_graph(ck, ix):
     ck.check(okc and okm, "G-TWIN", "ContextChain.insert_contexts|contexts-and-maps-prepended-reversed", ins.loc(),
              "contexts and maps are both prepended in reversed order (newest first)",
              "insert_contexts does not prepend reversed(contexts) to both self.contexts and self.maps: precedence/removal order broken")
+    if mp is not None and isinstance(mp, ast.BinOp):
+        lm = _shm.resolve(mp.left, ins.node)
+        filtered = [x for x in ast.walk(lm) if (isinstance(x, (ast.ListComp, ast.GeneratorExp, ast.SetComp)) and any(g_.ifs for g_ in x.generators))
+                    or (isinstance(x, ast.Call) and call_name(x) in ("filter", "filterfalse", "compress", "takewhile", "dropwhile"))]
+        ck.check(not filtered, "G-TWIN", "ContextChain.insert_contexts|one-map-per-inserted-context", ins.loc(mp),
+                 "every inserted context contributes exactly one map (remove_contexts drops n contexts and n maps)",
+                 f"`{norm(filtered[0]) if filtered else ''}` leaves out the map of some inserted contexts: contexts and maps get out of step, and leaving an inner context removes the rules of an outer one")
     rem = ix.func(CO, "ContextChain.remove_contexts")
     ck.analysed(rem)
     # what is deleted from which list: `del self.contexts[:n]; del self.maps[:n]`, a loop over both lists, or the slice
